@@ -49,7 +49,7 @@ Laws ==
     /\ (kind = "fill" /\ a = NULL) => FillLaws(s) /\ FillRefines(s)
     /\ (kind = "clip" /\ a = NULL /\ b = NULL) => ClipLaws(s)
     /\ kind = "uniq" => UniqRefines(s)
-    /\ (kind = "cut" /\ b = 0 /\ c /\ d) => UniqueBin(a) /\ OpenBoundsTotal(a)
+    /\ (kind = "cut" /\ b = 0 /\ c /\ d) => UniqueBin(a) /\ OpenBoundsTotal(a) /\ ErrorOnlyOutside(a)
 
 EmitMap ==
     PrintT(<<"REPLAY", ToJson(
@@ -68,5 +68,8 @@ EmitMap ==
         [] kind = "cut" ->
              [op |-> "cut", s |-> s, bins |-> a, nlabels |-> b, right |-> c, bounds |-> d,
               call_ok |-> CutCallOK(a, b, d),
-              exp |-> [i \in 1..Len(s) |-> CutOne(s[i], a, c, d)]])>>)
+              exp |-> [i \in 1..Len(s) |-> CutOne(s[i], a, c, d)],
+              \* the same request with a label series whose first / last label is itself null
+              exp_null_first |-> [i \in 1..Len(s) |-> CutOneL(s[i], a, c, d, 0)],
+              exp_null_last  |-> [i \in 1..Len(s) |-> CutOneL(s[i], a, c, d, b - 1)]])>>)
 =============================================================================
